@@ -206,6 +206,21 @@ CHECKS = {
         technique="TLA+ history model (TLC) + exhaustive short-history replay with deep snapshots on the real object",
         design="4/C14",
     ),
+    "C10": dict(
+        specs=["ProfileProd.tla", "Profile.tla", "ProfileTrace.tla"],
+        text="Profile.tla is the profile language as a generator automaton over the frozen production table ProfileProd (192 "
+        "statement forms in 18 block contexts): a stack of open blocks incl. named and default variants, the emitted token "
+        "sequence, the data-transform rule (each group ends with one termination). TLC explores it and its complete states "
+        "are dumped; every profile with <= 1 statement (every production, every nesting) and the two-statement ones (sampled "
+        "in quick) are parsed by the library, regenerated, re-lexed by an independent tokenizer and compared token for token, "
+        "and reparsed to an identical tree; the same with syntax-laden literals and with concatenations (repeated and empty "
+        "blocks, orders). Regenerated texts and the repository's profiles are turned into statement streams that ProfileTrace "
+        "accepts only if they are sentences of the documented language.",
+        note="Trusted: TLC, ProfileProd.tla (transcribed once from the documented language, module_x64 under its own name), the harness "
+        "tokenizer. Comments/whitespace are not tokens.",
+        technique="TLA+ generator automaton explored by TLC; dumped sentences replayed through parser+regenerator; regenerated text trace-validated by TLC",
+        design="4/C10",
+    ),
 }
 
 NOT_YET = "check not built yet in this round; planned in DESIGN.md section 4"
